@@ -10,7 +10,8 @@ THEOREMS = ["Genql.C03." + t for t in [
     "groups_partition", "count_conservation", "sum_ignores_null", "minmax_spec", "avg_is_sum_div_count", "count_spec",
     "whole_table_one_row"]] + \
     ["Genql.GroupModel." + t for t in ["goEq_scalar", "groupLoop_on", "evalSel_group", "group_count_model", "group_count_groups", "group_count_sum", "group_pipeline"]] + \
-    ["Genql.Pipeline.whole_aggregate_pipeline", "Genql.Pipeline.whole_aggregate_limit"]
+    ["Genql.Pipeline.whole_aggregate_pipeline", "Genql.Pipeline.whole_aggregate_limit", "Genql.Pipeline.whole_aggregate_phases",
+     "Genql.Pipeline.select_pipeline_phases"]
 TRUSTED = ["IEEE-754 summation order is the source order in both model and Go (left fold)", "sqlparser"]
 RULE = ("random tables (0-14 rows; 1-3 grouping columns with NULL / missing keys, single-group and all-distinct shapes) x "
         "select lists mixing grouping columns, *, COUNT/SUM/MIN/MAX/AVG (same function on different columns) x WHERE x HAVING; "
